@@ -17,6 +17,8 @@ var props = map[string]propFunc{
 	"C01": runC01,
 	"C02": runC02,
 	"C03": runC03,
+	"C04": runC04,
+	"C18": runC18,
 	"C05": runC05,
 	"C06": runC06,
 	"C07": runC07,
